@@ -163,6 +163,58 @@ def digit_ranges():
     return ranges
 
 
+def probe_data_conf(sid_res):
+    """finder / getter tables of spil_data_conf, obtained by probing get_finder_for / get_getter_for"""
+    from spil import Sid, FindInPaths, FindInConstants, GetFromPaths
+    finders = []      # descriptors, index = identity
+    ids = {}
+
+    def describe(f):
+        if f is None:
+            return None
+        if id(f) in ids:
+            return ids[id(f)]
+        if isinstance(f, FindInConstants):
+            parent = describe(f.parent_source)
+            d = {"kind": "constants", "key": f.key, "values": list(f.values), "parent": parent}
+        elif isinstance(f, FindInPaths):
+            d = {"kind": "paths", "config": f.config_name if f.config_name != conf.default_path_config else None}
+        else:
+            raise OutOfSubset("finder %r" % (f,))
+        finders.append(d)
+        ids[id(f)] = len(finders) - 1
+        return ids[id(f)]
+
+    class Probe:
+        def __init__(self, t):
+            self.type = t
+
+    by_type = []
+    no_getter = []
+    for l in [x["label"] for x in sid_res["labels"]]:
+        f1 = conf.get_finder_for(Probe(l), None)
+        f2 = conf.get_finder_for(Probe(l), None)
+        if f1 is not f2:
+            raise OutOfSubset("get_finder_for returns a new Finder per call for %s" % l)
+        by_type.append([l, describe(f1)])
+        g = conf.get_getter_for(Probe(l))
+        if g is None:
+            no_getter.append(l)
+        elif not isinstance(g, GetFromPaths):
+            raise OutOfSubset("getter %r" % (g,))
+    fd = conf.get_finder_for(Probe("__no_such_type__"), None)
+    gd = conf.get_getter_for(Probe("__no_such_type__"))
+    g_next = conf.get_getter_for(Probe("__no_such_type__"), attribute="next.version")
+    return {
+        "finders": finders,
+        "finder_by_type": [[l, i] for l, i in by_type if i is not None],
+        "finder_default": describe(fd),
+        "no_getter_types": no_getter,
+        "has_default_getter": isinstance(gd, GetFromPaths),
+        "next_getter": type(g_next).__name__,
+    }
+
+
 def pairs(d):
     return [[k, v] for k, v in d.items()]
 
@@ -231,6 +283,7 @@ def main():
     # key_patterns of the sid conf as they were when sid_conf_load applied them is not observable
     # any more (spil_fs_conf updates the shared inner dicts); the raw module value is dumped from a
     # pristine import in extract_raw_patterns().
+    out["conf"]["data"] = probe_data_conf(sid_res)
     out["create_file_using_touch"] = bool(conf.create_file_using_touch)
     out["create_file_using_template"] = pairs(conf.create_file_using_template)
     from spil.util import caching
